@@ -15,11 +15,24 @@ def walk(f, val, limit=200):
     """follow the CFG from the entry deciding every two-way branch by evaluating its condition under `val`;
     returns the ReturnStmt node reached (or None when a condition is not determined)"""
     b = f.entry
+    sym = getattr(f, "_hint_sym", None)
+    if sym is not None:
+        sym.clear()
     for _ in range(limit):
         blk = f.blocks[b]
         for e in blk["el"]:
             if isinstance(e, int) and f.nodes[e]["k"] == "ReturnStmt":
                 return e
+            # locals that are (re)assigned on the path (single-exit style: `cell = &prev->right; parent = prev;`): remember what they hold
+            if sym is not None and isinstance(e, int):
+                ne = f.nodes[e]
+                if ne["k"] == "BinaryOperator" and ne["op"] == "=" and f.nodes[f.strip(ne["c"][0])]["k"] == "DeclRefExpr" \
+                   and f.nodes[f.strip(ne["c"][0])]["ref"].get("dk") == "local":
+                    sym[f.nodes[f.strip(ne["c"][0])]["ref"]["n"]] = q.no_casts(f.r(ne["c"][1]))
+                elif ne["k"] == "DeclStmt":
+                    for d_ in ne["decls"]:
+                        if d_.get("init") is not None and d_["id"] in f._hint_multi:
+                            sym[d_["n"]] = q.no_casts(f.r(d_["init"]))
         succ = [s for s in blk["succ"]]
         if len(succ) == 1:
             b = succ[0]
@@ -73,12 +86,19 @@ def run(prog, chk):
                                 # position is the sentinel: its key is never a valid neighbour; prev is the last element
                                 val["%s->key" % P] = 10 ** 9
                                 val["prev->key"] = ck
+                            if not hasattr(f, "_hint_sym"):
+                                defs_ = q.local_defs(f)
+                                f._hint_multi = set(k for k, dl in defs_.items() if any(x[0] == "store" for x in dl))
+                                f._hint_sym = {}
                             r = walk(f, val)
                             total += 1
                             if r is None or isinstance(r, tuple):
                                 bad.append((val, "branch condition not evaluable: %s" % (r[1] if r else "?")))
                                 continue
                             t = q.no_casts(f.r(f.nodes[r]["c"][0])) if f.nodes[r]["c"] else ""
+                            for nm_, tx_ in sorted(f._hint_sym.items(), key=lambda kv: -len(kv[0])):
+                                t = re.sub(r"(?<![\w>.])%s(?![\w])" % re.escape(nm_), tx_.replace("\\", "\\\\"), t)
+                            t = t.replace(", 0,", ", 0,")
                             pv = val["prev->key"]
                             le = (lambda a, b: a <= b) if multi else (lambda a, b: a < b)
                             if "&this->root" in t:
